@@ -134,7 +134,7 @@ fn settings_menu(dst: u8, rich: bool) -> Vec<Setting> {
         ModSpec::Classic(None),
     ];
     if dst == 3 {
-        mods.extend([ModSpec::Bits(settings::KEY7), ModSpec::HoldOff, ModSpec::Invert]);
+        mods.extend([ModSpec::Bits(settings::KEY7), ModSpec::HoldOff, ModSpec::Invert, ModSpec::HoIn(None)]);
     }
     let mut out = Vec::new();
     for m in &mods {
